@@ -21,7 +21,7 @@ CHECKS = {
             "held on every executed pair and history: every request naming the victim's userid from a foreign address refused and without effect on the packets delivered to the victim, its session row, its transfer state and the server's tun writes; packets for address A delivered only to the logged-in holder of A; no VACK for a slot with an accepted message < 60 s earlier; no service after > 60 s of silence",
             "observables are compared at a granularity insensitive to when a datagram wakes the server inside its 20 ms send-real-soon window; behaviour at exactly 60 s is not asserted; a correct raw login from another address legitimately rebinds"),
     "C05": (A, "4.5", "ASan/UBSan inside the real iodined + watchdog + health probe under structure-aware hostile datagram generators",
-            "no sanitizer report, exit or stall on any executed hostile input sequence (7 generator classes x 9 pre-attack session states x server options), and a session established before the attack still moved a frame each way afterwards",
+            "no sanitizer report, exit or stall on any executed hostile input sequence (7 generator classes x 10 pre-attack session states x server options), and a session established before the attack still moved a frame each way afterwards",
             "a clean sanitizer run is not memory safety (intra-object / non-adjacent overflows invisible); only executed paths are judged; GCC-defined signed '<<' (shift-base) is not counted as UB"),
     "C08": (B, "4.8", "real client name builders -> strict name checker -> real server dispatcher in one process (statics reached by #include), over the full (L, domain length, codec) grid",
             "held on every generated name: thorough tier covers every (L 100..255, domain length, codec) triple; legality/length/suffix checked by an independent label walker, extraction compared with payload[:reported]",
